@@ -7,8 +7,8 @@ import os, time, subprocess, tempfile, re
 import z3
 from . import spec as speclib
 
-Z3_TIMEOUT_MS = int(os.environ.get('PYVC_Z3_TIMEOUT_MS', '10000'))
-CVC5_TIMEOUT_MS = int(os.environ.get('PYVC_CVC5_TIMEOUT_MS', '20000'))
+Z3_TIMEOUT_MS = int(os.environ.get('PYVC_Z3_TIMEOUT_MS', '30000'))
+CVC5_TIMEOUT_MS = int(os.environ.get('PYVC_CVC5_TIMEOUT_MS', '30000'))
 
 class Obligation(object):
     def __init__(self, name, hyps, goal, kind='post', function=None, where=None, carries_property=False,
@@ -19,10 +19,18 @@ class Obligation(object):
         self.meta = meta or {}
         self.unfold_depth = unfold_depth
         self.frame_heuristic = True
+        self.abstract_nonlinear = False
         self.result = None; self.backend = None; self.solver_s = 0.0; self.model = None; self.reason = None
         self.backends_tried = []
 
     def formulas(self):
+        fs = self._formulas()
+        if self.abstract_nonlinear:
+            cache = {}
+            fs = [abstract_nl(f, cache) for f in fs]
+        return fs
+
+    def _formulas(self):
         fs = list(self.hyps) + [z3.Not(self.goal)]
         # an application occurring identically in the goal and in the hypotheses is framed context: keep it folded
         skip = set()
@@ -43,6 +51,50 @@ class Obligation(object):
                     backend=self.backend, result=self.result, solver_s=round(self.solver_s, 4))
 
 
+_rmul = z3.Function('rmul', z3.RealSort(), z3.RealSort(), z3.RealSort())
+_rdiv = z3.Function('rdivf', z3.RealSort(), z3.RealSort(), z3.RealSort())
+
+def abstract_nl(e, cache):
+    """replace products of two non-constant reals (and divisions by non-constants) by uninterpreted functions.
+    Sound for proving (only facts are lost); used for loop obligations whose arithmetic content is equality of
+    syntactically matching grid expressions, so that the sequence reasoning is not mixed with nlsat."""
+    i = e.get_id()
+    if i in cache: return cache[i]
+    if z3.is_quantifier(e):
+        # rebuild the body with the same bound variables
+        body = abstract_nl(e.body(), cache)
+        if body.get_id() == e.body().get_id(): r = e
+        else:
+            vs = [z3.Const(e.var_name(k), e.var_sort(k)) for k in range(e.num_vars())]
+            inst = z3.substitute_vars(body, *reversed(vs))
+            pats = []
+            for k in range(e.num_patterns()):
+                p = e.pattern(k)
+                pats.append(z3.MultiPattern(*[z3.substitute_vars(abstract_nl(p.arg(j), cache), *reversed(vs)) for j in range(p.num_args())]) if p.num_args() > 1
+                            else z3.substitute_vars(abstract_nl(p.arg(0), cache), *reversed(vs)))
+            try: r = z3.ForAll(vs, inst, patterns=pats) if e.is_forall() else z3.Exists(vs, inst)
+            except z3.Z3Exception: r = z3.ForAll(vs, inst) if e.is_forall() else z3.Exists(vs, inst)
+        cache[i] = r; return r
+    if not z3.is_app(e) or e.num_args() == 0:
+        cache[i] = e; return e
+    args = [abstract_nl(c, cache) for c in e.children()]
+    k = e.decl().kind()
+    if k == z3.Z3_OP_MUL and e.sort() == z3.RealSort():
+        consts = [a for a in args if z3.is_rational_value(a) or z3.is_int_value(a)]
+        others = [a for a in args if not (z3.is_rational_value(a) or z3.is_int_value(a))]
+        if len(others) >= 2:
+            others.sort(key=lambda t: t.get_id())
+            r = others[0]
+            for o in others[1:]: r = _rmul(r, o)
+            for c in consts: r = c * r
+            cache[i] = r; return r
+    if k == z3.Z3_OP_DIV and e.sort() == z3.RealSort() and not z3.is_rational_value(args[1]):
+        r = _rdiv(args[0], args[1]); cache[i] = r; return r
+    if all(a.get_id() == c.get_id() for a, c in zip(args, e.children())): r = e
+    else: r = e.decl()(*args)
+    cache[i] = r
+    return r
+
 def _model_dict(m):
     out = {}
     for d in m.decls():
@@ -55,6 +107,18 @@ def _model_dict(m):
             pass
     return out
 
+def _is_countermodel(m, ob):
+    try:
+        g = m.eval(ob.goal, model_completion=True)
+        if z3.is_true(g): return False
+        for h in ob.hyps:
+            if z3.is_quantifier(h): continue
+            v = m.eval(h, model_completion=True)
+            if z3.is_false(v): return False
+        return True
+    except z3.Z3Exception:
+        return True
+
 def run_z3(ob, timeout_ms=None):
     s = z3.Solver()
     s.set('timeout', timeout_ms or Z3_TIMEOUT_MS)
@@ -65,11 +129,15 @@ def run_z3(ob, timeout_ms=None):
     if r == z3.unsat: return 'proved', dt, None, None
     if r == z3.sat:
         m = s.model()
+        # z3's sequence solver occasionally answers sat with a model that does not falsify the goal (seen with nested
+        # sequences): a sat answer only counts when its model really is a counter-model
+        if not _is_countermodel(m, ob):
+            return 'unknown', dt, None, 'z3 answered sat but its model does not falsify the goal (discarded)'
         return 'failed', dt, m, None
     return 'unknown', dt, None, s.reason_unknown()
 
 def run_cvc5(ob, timeout_ms=None):
-    txt = ob.to_smt2()
+    txt = ob.to_smt2().replace('seq.nth_u', 'seq.nth').replace('seq.nth_i', 'seq.nth')
     # z3 prints (declare-fun f () T) and seq.empty with `as`; cvc5 1.0 accepts these. Strings need --strings-exp.
     fd, path = tempfile.mkstemp(suffix='.smt2', prefix='pyvc_')
     os.write(fd, txt.encode()); os.close(fd)
@@ -92,10 +160,13 @@ QUICK_MS = int(os.environ.get('PYVC_QUICK_MS', '1500'))
 
 def _race(ob, z3_ms, cvc5_ms):
     """z3 (CLI) and cvc5 (CLI) on the same SMT-LIB text, concurrently; first definite answer wins"""
-    txt = ob.to_smt2()
+    txt = ob.to_smt2().replace('seq.nth_u', 'seq.nth').replace('seq.nth_i', 'seq.nth')
     fd, path = tempfile.mkstemp(suffix='.smt2', prefix='pyvc_'); os.write(fd, txt.encode()); os.close(fd)
     procs = {
         'z3': subprocess.Popen(['z3-new', '-T:%d' % max(1, z3_ms // 1000), path], stdout=subprocess.PIPE, stderr=subprocess.STDOUT, text=True),
+        'z3-seed1': subprocess.Popen(['z3-new', '-T:%d' % max(1, z3_ms // 1000), 'smt.random_seed=1', 'sat.random_seed=1', path], stdout=subprocess.PIPE, stderr=subprocess.STDOUT, text=True),
+        'z3-seed2': subprocess.Popen(['z3-new', '-T:%d' % max(1, z3_ms // 1000), 'smt.random_seed=7', 'smt.arith.solver=2', path], stdout=subprocess.PIPE, stderr=subprocess.STDOUT, text=True),
+        'z3-old': subprocess.Popen(['/usr/bin/z3', '-T:%d' % max(1, z3_ms // 1000), path], stdout=subprocess.PIPE, stderr=subprocess.STDOUT, text=True),
         'cvc5': subprocess.Popen(['/usr/bin/cvc5', '--strings-exp', '--tlimit=%d' % cvc5_ms, path], stdout=subprocess.PIPE, stderr=subprocess.STDOUT, text=True),
     }
     t0 = time.time(); results = {}
@@ -109,9 +180,12 @@ def _race(ob, z3_ms, cvc5_ms):
                     r = 'proved' if first == 'unsat' else 'failed' if first == 'sat' else 'unknown'
                     results[name] = (r, time.time() - t0, out[:300])
                     del procs[name]
-                    if r != 'unknown':
+                    if r == 'proved' or (r == 'failed' and name == 'cvc5'):
                         return name, r, time.time() - t0, results
+                    # a bare `sat` of the z3 CLI is only believed if cvc5 does not refute it (see _is_countermodel)
             time.sleep(0.01)
+        if any(v[0] == 'failed' for k, v in results.items() if k.startswith('z3')) and results.get('cvc5', ('unknown',))[0] == 'unknown':
+            return 'z3', 'failed', time.time() - t0, results      # validated afterwards by the in-process model check
         return None, 'unknown', time.time() - t0, results
     finally:
         for p in procs.values():
@@ -137,6 +211,7 @@ def discharge(ob, both=False):
         if r == 'failed':
             r3, dt3, m, _ = run_z3(ob, Z3_TIMEOUT_MS)      # for the model
             ob.solver_s += dt3
+            if (who or '').startswith('z3') and r3 != 'failed': r, why = 'unknown', 'z3 sat not confirmed by a counter-model'
     elif both:
         r2, dt2, _, why2 = run_cvc5(ob)
         ob.backends_tried.append(('cvc5', r2, round(dt2, 4)))
@@ -164,7 +239,7 @@ def discharge_all(obls, both=False, jobs=None):
         o = _O(); o.to_smt2 = lambda: texts[id(ob)]
         return _race(o, Z3_TIMEOUT_MS, CVC5_TIMEOUT_MS)
     if hard:
-        with ThreadPoolExecutor(max_workers=jobs or 8) as tp:
+        with ThreadPoolExecutor(max_workers=3) as tp:
             for ob, (who, r, dt2, results) in zip(hard, tp.map(work, hard)):
                 ob.solver_s += dt2
                 for k, v in results.items(): ob.backends_tried.append((k + '-cli', v[0], round(v[1], 3)))
@@ -174,6 +249,8 @@ def discharge_all(obls, both=False, jobs=None):
         for ob in hard:
             if ob.result == 'failed':
                 r3, dt3, m, _ = run_z3(ob, Z3_TIMEOUT_MS); ob.model = m; ob.solver_s += dt3
+                if (ob.backend or '').startswith('z3') and r3 != 'failed':
+                    ob.result, ob.reason = 'unknown', 'z3 sat not confirmed by a counter-model'
     if both:
         easy = [o for o in pending if o not in hard]
         texts2 = {id(ob): ob.to_smt2() for ob in easy}
